@@ -200,7 +200,23 @@ def main():
     try:
         result = props.CHECKS[pid](ctx)
     except Exception:
-        traceback.print_exc()
+        tb = traceback.format_exc()
+        log(tb)
+        # an exception that travelled through the library under test (or the parsers it delegates to) is behaviour of
+        # the code, not of the harness: the property is no longer shown to hold on this tree
+        frames = traceback.extract_tb(sys.exc_info()[2])
+        through_lib = any(os.path.realpath(f.filename).startswith(os.path.realpath(REPO_SRC)) or "/pynmeagps/" in f.filename
+                          or "/pyrtcm/" in f.filename for f in frames)
+        if through_lib:
+            os.makedirs(os.path.join(VERIF, "replays"), exist_ok=True)
+            h = hashlib.sha256((pid + tb).encode()).hexdigest()[:10]
+            path = os.path.join(VERIF, "replays", f"{pid}-{h}.json")
+            json.dump(dict(property=pid, kind="no-failing-input-found",
+                           broken_correspondence=["the harness could not complete: an exception escaped from the implementation "
+                                                  "where the unchanged code raises none"],
+                           traceback=tb[-4000:], seed=seed, tier=tier), open(path, "w"), indent=1)
+            log(f"VIOLATION property={pid} replay={path} no-failing-input-found")
+            return 1
         log("harness crashed")
         return 2
     known, _fixed = load_known()
